@@ -52,10 +52,51 @@ def monitors():
     return [Shape(), M.C03Validated()]
 
 
+def stale_prelude(data, hist):
+    """Skip-queue mode: a green, in-sync PR is evaluated after one of its
+    later targets moved (another PR merged directly) - without a new build
+    report in between."""
+    w = hist.world
+    chain = [n for n in w.chain if n in w.heads()]
+    if len(chain) < 2:
+        return False
+    i = data.draw(st.integers(0, len(chain) - 2), label='first')
+    j = data.draw(st.integers(i + 1, len(chain) - 1), label='later')
+    hist.apply({'op': 'open_pr', 'src': 'bugfix/TEST-1-s1', 'dst': chain[i],
+                'author': AUTHOR, 'base_back': 0})
+    if not w.prs:
+        return False
+    p1 = max(w.prs)
+    hist.apply({'op': 'pr_event', 'pr': p1})
+    hist.apply({'op': 'report_pr', 'pr': p1, 'state': 'SUCCESSFUL'})
+    hist.apply({'op': 'open_pr', 'src': 'feature/TEST-2-s2', 'dst': chain[j],
+                'author': AUTHOR, 'base_back': 0})
+    p2 = max(w.prs)
+    if p2 == p1:
+        return False
+    for u in (PEER1, PEER2, AUTHOR):
+        hist.apply({'op': 'approve', 'pr': p2, 'user': u})
+    hist.apply({'op': 'pr_event', 'pr': p2})
+    hist.apply({'op': 'report_pr', 'pr': p2, 'state': 'SUCCESSFUL'})
+    hist.apply({'op': 'pr_event', 'pr': p2})
+    for u in (PEER1, PEER2, AUTHOR):
+        hist.apply({'op': 'approve', 'pr': p1, 'user': u})
+    if data.draw(st.integers(0, 3), label='rereport') == 0:
+        hist.apply({'op': 'report_pr', 'pr': p1, 'state': 'SUCCESSFUL'})
+    hist.apply({'op': 'pr_event', 'pr': p1})
+    hist.flags.add('c03_stale_prelude')
+    return True
+
+
 def prelude(data, hist, evaluate=True):
     w = hist.world
+    if evaluate and w.mode == 'skipqueue' and data.draw(
+            st.integers(0, 1), label='stale_prelude'):
+        if stale_prelude(data, hist):
+            return
     dests = sorted(n for n in w.heads() if is_dest(n))
     k = data.draw(st.integers(1, 4), label='k')
+    opened = []
     for i in range(k):
         dst = dests[data.draw(st.integers(0, len(dests) - 1), label='dst')]
         n = len(w.prs) + 1
@@ -65,6 +106,11 @@ def prelude(data, hist, evaluate=True):
         pr = max(w.prs) if w.prs else None
         if pr is None or w.prs[pr]['src'] != src:
             continue
+        opened.append(pr)
+    # the order of entry into the queue is generated too (it need not be the
+    # order of creation)
+    order = data.draw(st.permutations(opened), label='queue_order')
+    for pr in order:
         hist.apply({'op': 'pr_event', 'pr': pr})
         for u in (PEER1, PEER2)[:int(w.settings_dict.get(
                 'required_peer_approvals', 1))]:
@@ -97,7 +143,7 @@ def classes(h):
 
 
 WEIGHTS = {'merge_queue': 25, 'report': 10, 'report_queue': 8, 'admin': 2,
-           'comment': 2}
+           'comment': 2, 'approve': 6, 'pr_event': 12}
 
 
 def shard(ctx, i, acc):
